@@ -154,7 +154,8 @@ CLAIMED['C19'] = dict(
     text='Boundedness clauses only: for n = 1 (full quaternion A, any start vector, 1-2 iterations; n = 2 real-axis in thorough) on every exit path (breakdown, '
          'convergence test, stagnation test, budget) power_iteration returns a unit-norm vector and estimate = |v^H A v| >= 0 (= |a| for n = 1, <= ||A||_F for n = 2); '
          'the Hermitian fast path of power_iteration_nonhermitian returns a real eigenvalue in both formats and a unit vector; the complex-adjoint path returns a unit '
-         'quaternion vector (thorough).',
+         'quaternion vector (thorough). Positive homogeneity: power_iteration(cA), c > 0 symbolic, from the same symbolic start returns the same vector and c times the '
+         'estimate on every exit path (n = 1 real-axis in quick; complex / full / n = 2 in thorough) - the stopping tests cannot depend on the magnitude of A.',
     ref='3/C19',
     note='Convergence to the dominant eigenpair, the sign clause and the sharp bound by the spectral norm are limit / LAPACK statements and are outside the claim. '
          'Floats as reals; shim; z3.')
